@@ -194,6 +194,9 @@ type GenOpts struct {
 	// UniqueIndex: tables get a secondary unique index on one int / varchar
 	// column; inserts and upserts sometimes collide on it
 	UniqueIndex bool `json:"unique_index,omitempty"`
+	// UpsertOtherRow: an upsert may name one primary key and meet its duplicate,
+	// through the secondary unique index, on a row with another one
+	UpsertOtherRow bool `json:"upsert_other_row,omitempty"`
 	// DedicatedConn: the business of an episode runs on one *sql.Conn
 	DedicatedConn bool `json:"dedicated_conn,omitempty"`
 	// BigBlob: most blob values are 40-60 KB of random bytes
@@ -588,6 +591,19 @@ func (s *stmtGen) gen() ATStmt {
 			}
 		}
 		var lists []string
+		otherRow := false
+		pkListed := true
+		for _, pkn := range t.PK {
+			listed := false
+			for _, n := range names {
+				if n == pkn {
+					listed = true
+				}
+			}
+			if !listed {
+				pkListed = false
+			}
+		}
 		for r := 0; r < nrows; r++ {
 			var pk []Val
 			if kind == "upsert" && s.g.Bool() {
@@ -610,7 +626,9 @@ func (s *stmtGen) gen() ATStmt {
 					row[j] = genValFor(s.g, c, s.o)
 					if t.Uniq == c.Name {
 						switch {
-						case c.Nullable && r == 0 && nrows > 1 && s.g.Prob(0.4):
+						case c.Nullable && r == 0 && nrows > 1 && s.g.Prob(0.4) && (kind != "upsert" || s.o.UpsertOtherRow || pkListed):
+							// (an upsert row with NULL here and a generated key is a known
+							// finding: rarely enabled)
 							row[j] = VN()
 						case s.g.Prob(0.4):
 							// the value another row holds (duplicate key through the index)
@@ -622,6 +640,20 @@ func (s *stmtGen) gen() ATStmt {
 							for _, k := range ks {
 								if other := s.live[ti][k]; other[j].K != "n" {
 									row[j] = other[j]
+									if kind == "upsert" {
+										if s.o.UpsertOtherRow {
+											// the duplicate is met on a row whose primary key is not the
+											// one the statement names (known finding, rarely enabled)
+											otherRow = true
+										} else {
+											// the statement names the row it collides with
+											for jj, cc := range t.Cols {
+												if t.isPK(cc.Name) {
+													row[jj] = other[jj]
+												}
+											}
+										}
+									}
 									break
 								}
 							}
@@ -659,6 +691,9 @@ func (s *stmtGen) gen() ATStmt {
 				sets = append(sets, fmt.Sprintf("%s = VALUES(%s)", c.Name, c.Name))
 			}
 			sql += " ON DUPLICATE KEY UPDATE " + strings.Join(sets, ", ")
+		}
+		if otherRow {
+			return ATStmt{SQL: sql, Args: args, Kind: "upsert-uniq-other-row"}
 		}
 		return ATStmt{SQL: sql, Args: args, Kind: kind}
 	case "update":
